@@ -16,7 +16,7 @@ LEVEL = "exploration"
 RULE = ("all keys of length 1..3 over 11 byte classes (NUL,TAB,LF,VT,FF,CR,SPACE,other-C0,printable,DEL,high; thorough: "
         "every member of the small classes), every byte value at every position of 10-byte keys and at first/middle/last of "
         "250-byte keys, byte lengths 248..252 for ASCII and 2/3/4-byte UTF-8 characters, prefixes of length 0,1,125,249,250, "
-        "str and bytes, allow_unicode_keys on/off; 4 entry points. Non-trivial = key has a non-alphanumeric byte, is within 2 "
+        "str and bytes, allow_unicode_keys on/off; entry points: the helper, check_key of Client/PooledClient, operations of the three classes on a healthy server, on a HashClient with no server left and on clients whose server refuses connections (17 operations in rotation). Non-trivial = key has a non-alphanumeric byte, is within 2 "
         "bytes of the limit, or has a prefix; distinct by (key, unicode, prefix, entry point).")
 ASSUMPTIONS = [
     "legal(key) per the statement: encoded (ascii / utf8) + prefixed form is <=250 bytes and has no byte in {00,09,0a,0b,0c,0d,20}",
@@ -300,6 +300,30 @@ def shard(tier, seed, idx, n):
             down_clients[k] = hc
         return down_clients[k]
 
+    dead_srv = net.add_server("mc-unreachable", 11211)
+    dead_srv.health = "refused"
+    unreach = {}
+
+    def unreach_clients(uni, prefix):
+        """clients whose server refuses connections: an illegal key is still an input error, not a connection error"""
+        k = (uni, prefix)
+        if k not in unreach:
+            if len(unreach) > 64:
+                unreach.clear()
+            kw = dict(socket_module=net, allow_unicode_keys=uni, key_prefix=prefix)
+            unreach[k] = (base.Client(("mc-unreachable", 11211), **kw), base.PooledClient(("mc-unreachable", 11211), **kw),
+                          hashmod.HashClient([("mc-unreachable", 11211)], retry_attempts=100, retry_timeout=0, **kw))
+        return unreach[k]
+
+    UNREACH_OPS = [
+        ("get", lambda c, k: c.get(k)), ("set", lambda c, k: c.set(k, b"v", noreply=False)), ("delete", lambda c, k: c.delete(k)),
+        ("incr", lambda c, k: c.incr(k, 1)), ("touch", lambda c, k: c.touch(k, 5)), ("get_many", lambda c, k: c.get_many(["ok", k])),
+        ("set_many", lambda c, k: c.set_many({"ok": b"v", k: b"v"}, noreply=False)), ("gats", lambda c, k: c.gats(k, 5)),
+        ("cas", lambda c, k: c.cas(k, b"v", b"1")), ("append", lambda c, k: c.append(k, b"v")), ("add", lambda c, k: c.add(k, b"v")),
+        ("delete_many", lambda c, k: c.delete_many(["ok", k])), ("decr", lambda c, k: c.decr(k, 1)), ("gets", lambda c, k: c.gets(k)),
+        ("replace", lambda c, k: c.replace(k, b"v")), ("prepend", lambda c, k: c.prepend(k, b"v")), ("gat", lambda c, k: c.gat(k, 5)),
+    ]
+
     def ign_client(uni, prefix):
         k = (uni, prefix)
         if k not in ign_clients:
@@ -366,6 +390,33 @@ def shard(tier, seed, idx, n):
                         return wire if wire is not None else b"<all-servers-down error instead of an input error>"
                     return b"<no error although no server is in rotation>"
                 judge_direct(res, st, base, "HashClient(no server left).get", dget, key, uni, prefix)
+            if not legal or i % 5 == 0:
+                for cname, cl in zip(("Client", "PooledClient", "HashClient"), unreach_clients(uni, prefix)):
+                    oname, ofn = UNREACH_OPS[(i // n + len(cname)) % len(UNREACH_OPS)]
+
+                    if cname == "HashClient" and oname in ("set_many", "delete_many", "get_many"):
+                        # a HashClient works through such a batch key by key (each key has its own server): the unreachable
+                        # server's error for an earlier legal key legitimately comes first, so the judged key stands alone
+                        ofn = {"set_many": lambda c, k: c.set_many({k: b"v"}, noreply=False),
+                               "delete_many": lambda c, k: c.delete_many([k]), "get_many": lambda c, k: c.get_many([k])}[oname]
+
+                    def uop(cl=cl, ofn=ofn, cname=cname):
+                        from pymemcache.exceptions import MemcacheError, MemcacheIllegalInputError
+                        try:
+                            ofn(cl, key)
+                        except MemcacheIllegalInputError:
+                            raise
+                        except MemcacheError:
+                            if cname != "HashClient":
+                                raise
+                            # the refusing server has meanwhile been taken out of rotation: 'all servers down'
+                            res.count("unreachable_server_connect_errors")
+                            return wire if wire is not None else b"<all-servers-down error instead of an input error>"
+                        except OSError:
+                            res.count("unreachable_server_connect_errors")
+                            return wire if wire is not None else b"<connection error instead of an input error>"
+                        return b"<no error although the server refuses connections>"
+                    judge_direct(res, st, base, "%s(server unreachable).%s" % (cname, oname), uop, key, uni, prefix)
             if srv.malformed[m1:]:
                 ign_clients.pop((uni, prefix), None)
             if srv.malformed[m0:]:
